@@ -62,6 +62,8 @@ static std::vector<unsigned char> unhex(const std::string& s) {
 }
 static std::string hx(const std::vector<unsigned char>& v) { return HexStr(v); }
 
+static std::string le_hex(uint64_t v, int n) { std::vector<unsigned char> b; for (int i = 0; i < n; i++) { b.push_back(v & 0xff); v >>= 8; } return hx(b); }
+
 static std::string jstr(const std::string& s) {
     std::string o = "\"";
     for (unsigned char c : s) {
@@ -137,6 +139,7 @@ static void dump_state(const char* ev, bool ok, const std::string& extra = "") {
             last_script = cs; last_inst = S.inst;
         }
         printf(",\"succlen\":%d,\"p2sh\":%s", (int)e->successor_script.size(), e->is_p2sh ? "true" : "false");
+        if (!strcmp(ev, "Opened")) printf(",\"succ\":\"%s\"", hx(std::vector<unsigned char>(e->successor_script.begin(), e->successor_script.end())).c_str());
     }
     if (e->tce) printf(",\"tce\":{\"i\":%d,\"k\":\"%s\"}", e->tce->m_i, HexStr(e->tce->m_k).c_str());
     else printf(",\"tce\":{\"i\":-1,\"k\":\"\"}");
@@ -218,7 +221,7 @@ static void open_session(std::map<std::string, std::string>& m) {
         env = I.env;
         dump_state("Opened", true, autoconf ? std::string(",\"sigver\":") + std::to_string((int)I.sigver) +
                    ",\"nin\":" + std::to_string((long long)I.txin_index) + ",\"vout\":" + std::to_string((long long)I.txin_vout_index) +
-                   ",\"amount\":\"" + std::to_string((long long)(I.txin_index >= 0 ? I.amounts[I.txin_index] : 0)) + "\"" : "");
+                   ",\"amount8\":\"" + le_hex((uint64_t)(I.txin_index >= 0 ? I.amounts[I.txin_index] : 0), 8) + "\"" : "");
     } catch (const std::exception& ex) {
         printf("{\"e\":\"Refused\",\"stage\":\"exception\",\"msg\":%s}\n", jstr(ex.what()).c_str());
         S.refused = true;
@@ -324,7 +327,6 @@ static void on_crash(int sig) {
 
 // ------------------------------------------------------------------ transactions (C13)
 CTransactionRef parse_tx(const char* p);   // instance.cpp
-static std::string le_hex(uint64_t v, int n) { std::vector<unsigned char> b; for (int i = 0; i < n; i++) { b.push_back(v & 0xff); v >>= 8; } return hx(b); }
 static void txcmd(std::istringstream& is) {
     std::string h; is >> h;
     for (auto& c : h) if (c == '_') c = ' ';
